@@ -2221,3 +2221,7 @@ mod tests {
         }
     }
 }
+
+#[cfg(kani)]
+#[path = "/verif/units/kani/page_walker.rs"]
+mod verif_kani;
